@@ -6,6 +6,8 @@ import SevenZ.Lemmas.Aes
 import SevenZ.Lemmas.Decode
 import SevenZ.Lemmas.Utf16
 import SevenZ.Lemmas.Session
+import SevenZ.Lemmas.ImplHeader
+import SevenZ.Props.C06
 namespace SevenZ.C01
 open SevenZ SevenZ.Impl
 
@@ -66,6 +68,39 @@ theorem stored_sizes_crcs {σ} (chain : List (StageSt σ)) (hne : chain ≠ []) 
     (members : List (List Bytes)) :
     (compressAll ({ chain := chain } : Cmp σ) members).2 = members.map (fun m => (m.flatten.length, crc32 m.flatten)) :=
   (SevenZ.compressor_accounting chain hne hfed members).1
+
+
+/-- **py7zr reads back what py7zr wrote** (create session, raw header).  For every list of write
+    calls, every codec chain and coder list (within the reader's own limits: non-empty coder ids,
+    names of at most 65535 UTF-16 units, tables below 2^63 bytes): the model of `Header._read`
+    applied to the header the session wrote returns member records with exactly the written
+    names in call order (a backslash in a name comes back as a slash: the reader's documented
+    rewrite), flags, times and attribute words, one folder with one sub-stream per data
+    member, and as digests the CRC-32 of each member's bytes. -/
+theorem py7zr_reads_back_session {σ} (cfg : WConfig σ) (ms : List WMember) (H0 : Header) (hdr : Bytes) (pos : Nat)
+    (wfc : WFConfig cfg) (wfm : WFMembers ms) (rs : ReadableSession cfg ms)
+    (hout : (sessionCompress cfg ms).1.out.length < 2 ^ 64)
+    (hus : ∀ us, unpacksizesOf cfg.methodsMap ((sessionCompress cfg ms).1.chain.map (·.fed)) = some us → ∀ v ∈ us, v < 2 ^ 64)
+    (hH : sessionHeader cfg ms = some H0) (hW : writeHeaderRaw true H0 pos = some hdr) :
+    ∃ H', (readNextHeader hdr).toOption.map (fun
+        | .raw h' => some h'
+        | _ => none) = some (some H') ∧
+      H'.filesInfo = some { files := sessionReadBackFiles ms, emptyfiles := [] } ∧
+      (∃ st sub, H'.mainStreams = some st ∧ st.substreams = some sub ∧
+        sub.numUnpack = [(dataMembers ms).length] ∧
+        (sub.digestsdefined.zip sub.digests).map (fun (d, c) => if d then some c else none) =
+          (dataMembers ms).map (fun m => some (crc32 m.blocks.flatten))) :=
+  impl_reads_session cfg ms H0 hdr pos wfc wfm rs hout hus hH hW
+
+/-- ... and the cursor of `_real_get_contents`, run on those counts, sizes and digests, gives every
+    member the folder, offset, size and digest of `expectedMembers ms` — whose slices are the
+    members' bytes (`container_roundtrip`) -/
+theorem py7zr_cursor_on_session (ms : List WMember) :
+    Impl.assign (ms.map (·.emptystream)) [(dataMembers ms).length]
+      ((dataMembers ms).map (fun m => m.blocks.flatten.length))
+      ((dataMembers ms).map (fun m => some (crc32 m.blocks.flatten))) = some ((expectedMembers ms).map (·.stream)) := by
+  have h := C06.assign_refines_spec (ms.map memberFile) [(dataMembers ms).length] _ _ _ (spec_assign_session ms)
+  simpa [memberFile, Function.comp_def] using h
 
 example : (expectedMembers [{ name := [97], emptystream := false, blocks := [[1, 2], [3]] }, { name := [98], emptystream := true },
     { name := [99], emptystream := false, blocks := [[9]] }]).map (·.stream) =
